@@ -25,6 +25,7 @@ func init() {
 
 func runC20(r *Report) {
 	c20R1(r)
+	c20PathCmp(r)
 	c20R2(r)
 	c20R3(r)
 	c20R4(r)
@@ -783,4 +784,196 @@ func playlistFuncs(p *Prog) map[*ssa.Function]bool {
 		})
 	}
 	return m3u
+}
+
+// ---------- R1 (path package): comparisons are component-wise ----------
+
+// elemOf: v is the element s[i] of one of the function's two path operands; returns which operand and the index value.
+func elemOf(v ssa.Value, ops []ssa.Value) (int, ssa.Value) {
+	var base, idx ssa.Value
+	switch x := v.(type) {
+	case *ssa.UnOp:
+		if x.Op != token.MUL {
+			return -1, nil
+		}
+		ia, ok := x.X.(*ssa.IndexAddr)
+		if !ok {
+			return -1, nil
+		}
+		base, idx = ia.X, ia.Index
+	case *ssa.Index:
+		base, idx = x.X, x.Index
+	default:
+		return -1, nil
+	}
+	for k, o := range ops {
+		if strip(base) == o {
+			return k, idx
+		}
+	}
+	return -1, nil
+}
+
+func c20PathCmp(r *Report) {
+	p := r.P
+	for _, name := range []string{"Equal", "Within"} {
+		f := p.Func("path", "Path."+name)
+		if !r.Anchor("R1", "path.(Path)."+name, f != nil) {
+			continue
+		}
+		r.Fn(f)
+		if len(f.Params) != 2 {
+			r.Undecided("R1", "path."+name+"/shape", f.Pos(), "unexpected signature")
+			continue
+		}
+		ops := []ssa.Value{f.Params[0], f.Params[1]}
+		key := "path." + name
+		// (a) delegating to slices.Equal on the two operands is component-wise by definition
+		delegated := false
+		if name == "Equal" {
+			all := true
+			for _, ret := range returnsOf(f) {
+				c, ok := strip(ret.Results[0]).(*ssa.Call)
+				if !ok || calleeObj(c) == nil || calleeObj(c).Pkg() == nil || calleeObj(c).Pkg().Path() != "slices" || calleeObj(c).Name() != "Equal" ||
+					len(c.Call.Args) != 2 || !((strip(c.Call.Args[0]) == ops[0] && strip(c.Call.Args[1]) == ops[1]) || (strip(c.Call.Args[0]) == ops[1] && strip(c.Call.Args[1]) == ops[0])) {
+					all = false
+				}
+			}
+			delegated = all && len(returnsOf(f)) > 0
+		}
+		if delegated {
+			r.Ok("R1", key+"/component-wise", f.Pos(), "delegates to slices.Equal on the two paths")
+			continue
+		}
+		// (b) every string comparison is between p[i] and q[i] for the same i; nothing else is compared or called
+		nCmp := 0
+		bad := ""
+		allInstrs(f, func(in ssa.Instruction) {
+			switch x := in.(type) {
+			case *ssa.BinOp:
+				if !isStringKind(x.X.Type()) {
+					return
+				}
+				switch x.Op {
+				case token.EQL, token.NEQ, token.LSS, token.GTR, token.LEQ, token.GEQ:
+				default:
+					if bad == "" {
+						bad = "strings are combined (" + exprStr(x) + ") at " + p.pos(x.Pos())
+					}
+					return
+				}
+				ka, ia := elemOf(x.X, ops)
+				kb, ib := elemOf(x.Y, ops)
+				if ka < 0 || kb < 0 || ka == kb || ia != ib {
+					if bad == "" {
+						bad = "the comparison " + exprStr(x) + " at " + p.pos(x.Pos()) + " is not between the components of the two paths at one index"
+					}
+					return
+				}
+				nCmp++
+			case *ssa.Call:
+				if bi, ok := x.Call.Value.(*ssa.Builtin); ok && (bi.Name() == "len" || bi.Name() == "min" || bi.Name() == "max") {
+					return
+				}
+				// a component-wise comparison of (a slice of) one operand with (a slice of) the other: the sibling
+				// Path.Equal — itself checked — or slices.Equal
+				if o := calleeObj(x); o != nil && o.Pkg() != nil && o.Name() == "Equal" && (o.Pkg().Path() == "slices" || hasSuffix(o.Pkg().Path(), "/path")) && len(x.Call.Args) == 2 && x.Call.StaticCallee() != f {
+					base := func(v ssa.Value) int {
+						v = strip(v)
+						if sl, ok := v.(*ssa.Slice); ok {
+							v = strip(sl.X)
+						}
+						for k, o := range ops {
+							if v == o {
+								return k
+							}
+						}
+						return -1
+					}
+					if a, b := base(x.Call.Args[0]), base(x.Call.Args[1]); a >= 0 && b >= 0 && a != b {
+						nCmp++
+						return
+					}
+				}
+				if bad == "" {
+					bad = "it calls " + exprStr(x) + " at " + p.pos(x.Pos())
+				}
+			}
+		})
+		if bad != "" || nCmp == 0 {
+			if bad == "" {
+				bad = "no comparison of components found"
+			}
+			r.Fail("R1", key+"/component-wise", f.Pos(), "path.%s does not compare the two paths component by component (%s): a representation that joins the components cannot tell [\"a/b\"] from [\"a\",\"b\"], so a crafted component makes a lookup resolve to another file", name, bad)
+			continue
+		}
+		r.Ok("R1", key+"/component-wise", f.Pos(), "%d comparisons, each between p[i] and q[i]; no other calls", nCmp)
+		// (c) the length relation guards every return that can be true
+		isLenCmp := func(cond ssa.Value, pol bool) bool {
+			bo, ok := cond.(*ssa.BinOp)
+			if !ok {
+				return false
+			}
+			a, b := bo.X, bo.Y
+			op := bo.Op
+			if isLenOf(b, ops[0]) && isLenOf(a, ops[1]) {
+				a, b = b, a
+				switch op {
+				case token.LSS:
+					op = token.GTR
+				case token.GTR:
+					op = token.LSS
+				case token.LEQ:
+					op = token.GEQ
+				case token.GEQ:
+					op = token.LEQ
+				}
+			}
+			if !isLenOf(a, ops[0]) || !isLenOf(b, ops[1]) {
+				return false
+			}
+			if name == "Equal" {
+				return (op == token.EQL && pol) || (op == token.NEQ && !pol)
+			}
+			// Within: len(p) > len(d)
+			return (op == token.GTR && pol) || (op == token.LEQ && !pol)
+		}
+		lenOK, reached := true, 0
+		for _, ret := range returnsOf(f) {
+			if b, isb := constBool(ret.Results[0]); isb && !b {
+				continue
+			}
+			if ph, isPhi := ret.Results[0].(*ssa.Phi); isPhi && ph.Block() == ret.Block() {
+				// return len(p) > len(d) && …: the result is false on the edge where the relation failed
+				for i, e := range ph.Edges {
+					if b, isb := constBool(e); isb && !b {
+						continue
+					}
+					reached++
+					held := false
+					for _, g := range guardsOnEdge(ph.Block().Preds[i], ph.Block()) {
+						g = g.norm()
+						if isLenCmp(g.Cond, g.Pol) {
+							held = true
+						}
+					}
+					if !held {
+						lenOK = false
+					}
+				}
+				continue
+			}
+			the := ret
+			miss, n := pathsMissingEntry(f, func(in ssa.Instruction) bool { return in == ssa.Instruction(the) }, nil, []edgeReq{{Name: "length relation", Match: isLenCmp}})
+			reached += n
+			if len(miss) > 0 {
+				lenOK = false
+			}
+		}
+		want := "len(p) == len(q)"
+		if name == "Within" {
+			want = "len(p) > len(d)"
+		}
+		r.Check(reached > 0 && lenOK, "R1", key+"/length-relation", f.Pos(), "every return that can be true has passed "+want, "path."+name+" can return true without having established "+want+": a path that is a proper prefix (or extension) of a file's path resolves to that file")
+	}
 }
